@@ -59,6 +59,88 @@ var boundsReviewed = map[string]string{
 	"object.First | constant high bound 1 of a slice":                 "a.Value is not empty on this path, so it has at least one rune",
 }
 
+// reviewedLocalGuards: reviewed entries whose argument is "tested just above": the checker still requires
+// the tests to be there, i.e. dominating comparisons (or min/max clamps) bounding the value from above and,
+// where listed, from below. Removing one of the tests re-opens the obligation.
+var reviewedLocalGuards = map[string]struct{ upper, lower bool }{
+	"eval.(*State).evalIndexAssigment | index of a slice":             {true, true},
+	"eval.evalArrayIndexExpression | index of a slice":                {true, true},
+	"eval.(*State).evalIndexRangeExpression | low bound of a string":  {true, true},
+	"eval.(*State).evalIndexRangeExpression | high bound of a string": {true, false},
+	"eval.(*State).evalIndexRangeExpression | low bound of a slice":   {true, true},
+	"eval.(*State).evalIndexRangeExpression | high bound of a slice":  {true, false},
+}
+
+// guardedBy: some dominating comparison (or a min/max clamp in the value itself) bounds v from above / below.
+func (bp *boundProver) guardedBy(v ssa.Value, at *ssa.BasicBlock, upper bool, depth int) bool {
+	if depth > 4 || v == nil {
+		return false
+	}
+	v = stripConvert(v)
+	for _, cc := range controlling(at) {
+		bin, ok := cc.Cond.(*ssa.BinOp)
+		if !ok {
+			continue
+		}
+		op := bin.Op
+		if _, known := negOp[op]; !known {
+			continue
+		}
+		switch {
+		case bp.sameLocFrom(bin.X, v):
+		case bp.sameLocFrom(bin.Y, v):
+			op = flipOp[op]
+		default:
+			continue
+		}
+		if cc.Edge == 1 {
+			op = negOp[op]
+		}
+		if upper && (op == token.LSS || op == token.LEQ || op == token.EQL) {
+			return true
+		}
+		if !upper && (op == token.GTR || op == token.GEQ || op == token.EQL) {
+			return true
+		}
+	}
+	switch x := v.(type) {
+	case *ssa.Call:
+		if bi, ok := x.Common().Value.(*ssa.Builtin); ok {
+			if upper && bi.Name() == "min" {
+				return true
+			}
+			if !upper && bi.Name() == "max" {
+				return true
+			}
+			if bi.Name() == "min" || bi.Name() == "max" {
+				for _, a := range x.Common().Args {
+					if bp.guardedBy(a, at, upper, depth+1) {
+						return true
+					}
+				}
+			}
+		}
+	case *ssa.Phi:
+		for i, e := range x.Edges {
+			if !bp.guardedBy(e, x.Block().Preds[i], upper, depth+1) {
+				// the edge value may itself be bounded by a comparison that selected this edge
+				if bin, ok := e.(*ssa.BinOp); ok && (bin.Op == token.ADD || bin.Op == token.SUB) {
+					if bp.guardedBy(bin.X, x.Block().Preds[i], upper, depth+1) || bp.guardedBy(bin.Y, x.Block().Preds[i], upper, depth+1) {
+						continue
+					}
+				}
+				return false
+			}
+		}
+		return len(x.Edges) > 0
+	case *ssa.BinOp:
+		if x.Op == token.ADD || x.Op == token.SUB {
+			return bp.guardedBy(x.X, at, upper, depth+1)
+		}
+	}
+	return false
+}
+
 // sameSeq: x and y denote the same sequence value (identity, loads of the same location, conversions).
 func (bp *boundProver) sameSeq(x, y ssa.Value) bool {
 	if x == y {
@@ -623,8 +705,24 @@ func (c *Ctx) checkSliceBounds(r *Report, rule string, pkgs map[string]bool) {
 				}
 				key := fname + " | " + d
 				if why, ok := boundsReviewed[key]; ok {
-					nReviewed++
 					usedReviewed[key] = true
+					if g, needs := reviewedLocalGuards[key]; needs {
+						missing := ""
+						if g.upper && !bp.guardedBy(bd.v, in.Block(), true, 0) {
+							missing = "no dominating test (or min clamp) bounds it from above any more"
+						}
+						if g.lower && !bp.guardedBy(bd.v, in.Block(), false, 0) && !lo {
+							if missing != "" {
+								missing += "; "
+							}
+							missing += "no dominating test bounds it from below any more"
+						}
+						if missing != "" {
+							r.Fail(rule, fname, d, c.Pos(in.Pos()), "this site is accepted on the argument `"+why+"`, but "+missing+": index / slice bounds out of range panic")
+							continue
+						}
+					}
+					nReviewed++
 					r.OkWhy(rule, fname, d, c.Pos(in.Pos()), "reviewed: "+why)
 					continue
 				}
